@@ -293,6 +293,10 @@ def handle [Inhabited α] (C : Codec α) (op : String) : P String := do
       let e ← parseExprW C
       let r := fullyReduceWith N bound e
       pure s!"ok {bstr r.warned} {r.steps} {showExprW C true r.expr}"
+  | "rules" => do
+      -- the ordered reducer table of the class of the given node
+      let e ← parseExprW C
+      pure s!"ok {" ".intercalate ((reducers e).map RuleId.name)}"
   | "trace" => do
       -- events and expression sizes of every step
       let bound ← natTok
